@@ -239,7 +239,7 @@ func checkFieldFacts(c *Ctx, r *Report) {
 	} else {
 		n := 0
 		for _, fn := range c.LibFuncs() {
-			allInstrs(fn, false, func(in ssa.Instruction) {
+			rawInstrs(fn, false, func(in ssa.Instruction) {
 				st, ok := in.(*ssa.Store)
 				if !ok {
 					return
@@ -279,7 +279,7 @@ func checkFieldFacts(c *Ctx, r *Report) {
 	}
 	sizes := map[string]int64{"crypto/sha1.New": 20, "crypto/md5.New": 16, "crypto/sha256.New": 32}
 	for _, fn := range c.LibFuncs() {
-		allInstrs(fn, false, func(in ssa.Instruction) {
+		rawInstrs(fn, false, func(in ssa.Instruction) {
 			al, ok := in.(*ssa.Alloc)
 			if !ok {
 				return
@@ -321,7 +321,7 @@ func (c *Ctx) icvPairsWithinDigest(sizes map[string]int64) bool {
 	ok := true
 	n := 0
 	for _, fn := range c.LibFuncs() {
-		allInstrs(fn, false, func(in ssa.Instruction) {
+		rawInstrs(fn, false, func(in ssa.Instruction) {
 			al, isAl := in.(*ssa.Alloc)
 			if !isAl {
 				return
